@@ -210,6 +210,12 @@ def worldOp (st : WSt) (wd : List String) : WSt × String :=
       | .pending => ({ st with w := { w with futs := insert w.futs fid fs' } }, "pending")
       | .ready v =>
         ({ st with w := { w with futs := erase w.futs fid }, finished := st.finished ++ [fid] }, s!"ready {showVal v}")
+  | ["woken", f] =>
+    -- whether the future's own waker fired is not predicted by the model: the wake-up contract
+    -- (Pending, then Ready on the next poll ⇒ woken in between) is judged on the implementation's trace
+    let fid := num f
+    if (lookup st.w.futs fid).isSome then (st, "woken yes || woken no")
+    else if st.finished.contains fid then (st, "done") else (st, "bad-op no-fut")
   | ["drop", f] =>
     let fid := num f
     if (lookup st.w.futs fid).isSome || st.finished.contains fid then
